@@ -222,6 +222,10 @@ func SameBytes(a, b []byte) bool { return bytes.Equal(a, b) }
 func BytesID(b []byte) uint64    { return uint64(len(b)) }
 func StrID(s string) uint64      { return uint64(len(s)) }
 func Symbolic() bool             { return false }
+// Terminates states that the code up to the matching Terminates(0, "") returns within n engine steps (SSA
+// instructions); natively a no-op (a spinning call shows as a test timeout in the replay).
+func Terminates(n int, label string) {}
+
 func Tier() int {
 	if os.Getenv("VERIF_TIER") == "thorough" {
 		return 1
